@@ -91,8 +91,11 @@ func openLastURL(r Rnd, body []*Dir) (hoisted []*Dir) {
 // openFirst takes the last one or two children away from a directive (which must then use the implicit context form) and
 // returns them: they become the beginning of the macro body that is pasted right after that directive.
 func openFirst(r Rnd, p *Dir) []*Dir {
+	// only directives that never expect a body of their own: a response or a Request that lost its Body child would be
+	// followed by whatever comes next (a ')' if it is the last directive of another macro body) where its schema is expected
 	switch p.Kw {
-	case "MACRO", "PASTE", "INCLUDE", "Description":
+	case "URL", "GET", "POST", "PUT", "PATCH", "DELETE", "TAG", "INFO", "SERVER", "Method":
+	default:
 		return nil
 	}
 	if len(p.Children) == 0 || p.Explicit == "yes" {
